@@ -173,13 +173,29 @@ def eval_real(c):
         if isinstance(r, pywbem.CIMError):
             rec['out'] = {'exc': 'CIMError', 'code': max(0, r.status_code)}
     else:
+        lim = sys.get_int_max_str_digits()
+        sys.set_int_max_str_digits(0)       # the harness prints huge untyped integers; the call under test is over
         try:
             rec['out'] = {'ok': summarize(op, r)}
         except Exception as e:  # noqa: result of an undocumented shape
             rec['out'] = {'ok': {'k': 'unsummarizable', 'why': repr(e)[:100]}}
+        finally:
+            sys.set_int_max_str_digits(lim)
         if not L.shape_ok(op, r):
             rec['viol'] = ({'kind': 'undocumented_result', 'post': op.post, 'op': op.name.split(':')[0]},
                            {'returned': str(L.describe(r))[:400]})
+        elif op.post in ('pullInst', 'pullPath', 'pullQuery') and not op.flags.get('iter') and \
+                getattr(r, 'context', None) is not None:
+            # the session goes on: the returned context must be usable for the next request
+            for nm, call in (('PullInstancePaths', lambda: conn.PullInstancePaths(r.context, 1)),
+                             ('CloseEnumeration', lambda: conn.CloseEnumeration(r.context))):
+                try:
+                    call()
+                except Exception as e:  # noqa
+                    if not L.documented_error(e):
+                        rec['viol'] = ({'kind': 'undocumented_exception', 'exc': type(e).__name__, 'site': _site(e),
+                                        'step': 'followup:' + nm}, {'exc': repr(e)[:300], 'context': repr(r.context)[:200]})
+                        break
     return rec
 
 
@@ -326,6 +342,67 @@ def gen_cases(run, scale):
             'P', ty, L.value('<INSTANCE CLASSNAME="C"/>'), {'EmbeddedObject': 'instance'})])).encode('utf-8'))
         add(im, ['invoke:refarray:%s' % ty], L.ser(L.build_response(im, [L.paramvalue('P', ty, L.E('VALUE.REFARRAY', {}, [
             L.E('VALUE.REFERENCE', {}, [L.obj_tree(L._instpath(g))]), L.E('VALUE.NULL')]))])).encode('utf-8'))
+    # directed: every header-level error branch x bodies that are not UTF-8 (the exception must still be built)
+    for op in r.sample(ops, 6):
+        for st, hdr in ((200, {'Content-type': 'text/html'}), (200, {'Content-type': 'text/html; charset=utf-8'}),
+                        (200, {'Content-type': 'application/json; charset=latin-1'}), (200, {}),
+                        (401, {}), (401, {'WWW-Authenticate': 'Basic realm="x"', 'Content-type': 'text/html'}),
+                        (404, {'Content-type': 'text/html'}), (500, {'CIMError': 'x', 'PGErrorDetail': '%ff'}),
+                        (200, {'Content-type': 'application/xml; charset=utf-16'})):
+            for b in L.NON_UTF8_BODIES:
+                add(op, ['http:directed:%d' % st], b, status=st, reason='R', headers=hdr)
+    # directed: typed texts (format-hostile tokens, isdigit()-but-not-int() digits, INF/NaN, over-long literals,
+    # malformed datetimes) at every typed text position: property value, array item, key value, qualifier value
+    gi, ein = L.op_by_name('GetInstance'), L.op_by_name('EnumerateInstanceNames')
+    key_texts = L.HOSTILE + L.ISDIGIT_NOT_INT + ['INF', 'NaN', '1e400', '', 'x', '256', '0x' + 'f' * 3600, '9' * 4301,
+                                                  '20240101000000.000000+000', '2024{0}01000000.000000+000',
+                                                  '20241301000000.000000+000', '12345678{x}2345.123456:000']
+    for ty in L.SCALAR_TYPES:
+        for txt in key_texts:
+            v = L.value(txt)
+            props = [L.E('PROPERTY', {'NAME': 'p', 'TYPE': ty}, [v]),
+                     L.E('PROPERTY.ARRAY', {'NAME': 'a', 'TYPE': ty}, [L.E('VALUE.ARRAY', {}, [L.value('x' if ty == 'string' else txt), v])]),
+                     L.E('PROPERTY', {'NAME': 'q', 'TYPE': 'string'}, [L.E('QUALIFIER', {'NAME': 'Q', 'TYPE': ty}, [v]), L.value('s')])]
+            for pr in props:
+                add(gi, ['typed:%s:%s' % (pr[0], ty)],
+                    L.ser(L.build_response(gi, [L.iret([L.E('INSTANCE', {'CLASSNAME': 'C'}, [pr])])])).encode('utf-8'))
+            kv = L.E('KEYVALUE', {'VALUETYPE': 'string' if ty in ('string', 'char16', 'datetime') else
+                                  ('boolean' if ty == 'boolean' else 'numeric'), 'TYPE': ty}, [txt] if txt else [])
+            add(ein, ['typed:KEYVALUE:%s' % ty], L.ser(L.build_response(ein, [L.iret([
+                L.E('INSTANCENAME', {'CLASSNAME': 'C'}, [L.E('KEYBINDING', {'NAME': 'k'}, [kv])])])])).encode('utf-8'))
+    for txt in key_texts:
+        for ty in ('datetime', 'uint8', 'boolean'):
+            add(im, ['invoke:hostile:%s' % ty], L.ser(L.build_response(im, [
+                L.E('RETURNVALUE', {'PARAMTYPE': ty}, [L.value(txt)]), L.paramvalue('P', ty, L.value(txt)),
+            ])).encode('utf-8'))
+            add(im, ['invoke:hostile_array:%s' % ty], L.ser(L.build_response(im, [
+                L.paramvalue('P', ty, L.E('VALUE.ARRAY', {}, [L.value(txt)]))])).encode('utf-8'))
+    # directed: ERROR elements with every code of the pool, for the intrinsic, extrinsic and export call paths
+    for op in (gi, im, L.op_by_name('ExportIndication'), L.op_by_name('OpenEnumerateInstances'),
+               L.op_by_name('IterEnumerateInstances:pull')):
+        for code in L.ERROR_CODES:
+            add(op, ['error_code'], L.ser(L.build_response(op, [L.error_elem(code, None)])).encode('utf-8'))
+    # directed: open/pull sessions whose EnumerationContext / EndOfSequence parameter has a DTD-valid child that is
+    # not a VALUE; the returned context is afterwards handed to CloseEnumeration (see eval_real) and, in the Iter*
+    # variants, to the next Pull
+    import pywbem
+    ctx_kids = [None, L.value('ctx'), L.value(''), L.E('VALUE.ARRAY', {}, [L.value('a'), L.value('b')]), L.E('VALUE.ARRAY', {}, []),
+                L.E('VALUE.REFERENCE', {}, [L.obj_tree(L._instpath(g))]),
+                L.E('VALUE.REFARRAY', {}, [L.E('VALUE.REFERENCE', {}, [L.obj_tree(L._instpath(g))])]),
+                L.obj_tree(pywbem.CIMClassName('C')), L.obj_tree(L._instname(g)), L.obj_tree(pywbem.CIMClass('C')),
+                L.obj_tree(pywbem.CIMInstance('C'))]
+    for op in ops:
+        if op.post in ('pullInst', 'pullPath', 'pullQuery') and not op.flags.get('oracle_only') or \
+                op.name.endswith(':auto'):
+            for ck in ctx_kids:
+                for eosk in (L.value('FALSE'), L.value('TRUE'), None, L.E('VALUE.ARRAY', {}, [L.value('FALSE')])):
+                    for ptype in ('string', None):
+                        kids = [L.iret([]), L.paramvalue('EndOfSequence', 'boolean', copy.deepcopy(eosk)),
+                                L.paramvalue('EnumerationContext', ptype, copy.deepcopy(ck))]
+                        if op.flags.get('returnClass'):
+                            kids.append(L.paramvalue('QueryResultClass', None, L.obj_tree(pywbem.CIMClass('C'))))
+                        add(op, ['session:ctx:%s' % (ck[0] if ck else 'none')],
+                            L.ser(L.build_response(op, kids)).encode('utf-8'))
     # transport exceptions (oracle only: the exception mapping of _cim_http is not modelled)
     for i in range(len(L.transport_exceptions())):
         add(r.choice(ops), ['transport'], b'', transport_exc=i)
@@ -391,7 +468,7 @@ def run(run):
         'Codec hypothesis record (float()/int(float)/float(int), CIMDateTime(str), CIMInstanceName.from_wbem_uri(str) '
         'success, expat parse of embedded-object text) instantiated by tables computed with Python for the run inputs',
         'requests/urllib3 exception hierarchy and pywbem_requests_exception mapping: oracle only (synthetic exceptions)',
-        "Python's recursion limit and int-string digit limit are not modelled (model fuel: 40 embedded levels)",
+        "Python's recursion limit is not modelled (model fuel: 40 embedded levels); the int-string digit limit (4300) is",
         'CIM status codes are compared as max(code, 0) (PyExc.cimError carries a Nat)']
     cases = gen_cases(run, scale)
     reals = common.pmap(_eval, cases, chunksize=16)
